@@ -43,6 +43,8 @@ CHECKS = {
             # statements inside a function body (return available at no cost) with comments on any token: the restricted
             # production after `return` with trivia replayed around calls / member accesses / operators
             {"harnesses": [H + "ZZH1Behaviour"], "flags": VLQ_REDIRECT, "quick": {"budget": 2, "stmts": 1, "trivia": 1, "triviakinds": 2, "wrapfunc": 1, "nofunc": 1, "atoms": 1, "maxlist": 1, "stmtmask": 128, "exprmask": 896}, "thorough": {"budget": 2, "stmts": 1, "trivia": 1, "triviakinds": 5, "wrapfunc": 1, "nofunc": 1, "atoms": 1, "maxlist": 1, "stmtmask": 128, "exprmask": 1022}},
+            # after an earlier plugin-configured parser in the same process
+            {"harnesses": [H + "ZZH1Behaviour"], "flags": VLQ_REDIRECT, "quick": dict(GEN_Q, stmts=1, prelude=1, preludeops=1, preludecfgs=1), "thorough": dict(GEN_Q, prelude=1)},
             # literal objects: a decimal integer as the object of a member access / call / index (`1 .p`)
             {"harnesses": [H + "ZZH1Behaviour"], "flags": VLQ_REDIRECT, "quick": {"budget": 2, "stmts": 1, "atoms": 2, "exprmask": 896, "litcallee": 1, "nofunc": 1, "maxlist": 1}, "thorough": {"budget": 2, "stmts": 2, "atoms": 2, "exprmask": 896, "litcallee": 1, "nofunc": 1, "maxlist": 1}},
         ],
@@ -66,6 +68,8 @@ CHECKS = {
         "runs": [
             {"harnesses": [H + "ZZH2Parse"], "flags": VLQ_REDIRECT, "quick": GEN_Q, "thorough": GEN_T},
             {"harnesses": [H + "ZZH2Parse"], "flags": VLQ_REDIRECT, "quick": GEN_ATOMS_Q, "thorough": GEN_ATOMS_T},
+            # after an earlier plugin-configured parser in the same process (postfix operator on a built-in operator token)
+            {"harnesses": [H + "ZZH2Parse"], "flags": VLQ_REDIRECT, "quick": dict(GEN_Q, stmts=1, prelude=1), "thorough": dict(GEN_Q, prelude=1)},
             # text -> token lemma (layer L): operator/punctuation kinds and extents by maximal munch, identifiers, keywords,
             # numbers, trivia skipping - the same step harness as C10 (whitespace and comments never change the token sequence)
             {"harnesses": [LX + "ZZH10Step"], "quick": {"K": 5, "prefix": 0}, "thorough": {"K": 7, "prefix": 0}},
@@ -90,6 +94,8 @@ CHECKS = {
             {"harnesses": [H + "ZZH3RoundTrip"], "quick": {"budget": 2, "atoms": 1, "funcs": 1, "follow": 2}, "thorough": {"budget": 2, "atoms": 2, "funcs": 1, "follow": 2}},
             # statement trees assembled from the constructors: every nesting of if / if-else / while / for / block / function
             # with <= sbudget compound statements (dangling else, declarations in lists, for headers with and without parts)
+            # after an earlier plugin-configured parser in the same process
+            {"harnesses": [H + "ZZH3RoundTrip"], "quick": {"budget": 2, "atoms": 1, "funcs": 0, "prelude": 1}, "thorough": {"budget": 2, "atoms": 2, "funcs": 1, "prelude": 1}},
             {"harnesses": [H + "ZZH3Statements"], "quick": {"sbudget": 3, "stmts": 1, "sleaves": 1, "maxblock": 1}, "thorough": {"sbudget": 3, "stmts": 2, "sleaves": 2, "maxblock": 2}},
         ],
     },
@@ -261,6 +267,10 @@ CHECKS = {
             {"harnesses": [H + "ZZH13bTolerantExtras", H + "ZZH13dSmartBreaks"], "flags": VLQ_REDIRECT, "quick": GEN_Q, "thorough": GEN_T},
             # the mode flags are copied into each parser at Build time (a shared builder reconfigured before the parser is used)
             {"harnesses": [H + "ZZH14dReconfigure"], "flags": VLQ_REDIRECT, "quick": {"T": 1}, "thorough": {"T": 2}},
+            # text -> token lemma: the smart-semicolon rule reads the lexer's after-newline flag; the step harness of C10
+            # decides that the flag is set exactly when a line break (LF, CR LF, also after a trailing // comment)
+            # separates two tokens
+            {"harnesses": [LX + "ZZH10Step"], "quick": {"K": 5, "prefix": 0}, "thorough": {"K": 7, "prefix": 0}},
         ],
     },
     "C16": {
@@ -274,6 +284,11 @@ CHECKS = {
             # statements and strips expression statements from the tree (returns nil after parsing them)
             {"harnesses": [H + "ZZH16aNesting"], "flags": VLQ_REDIRECT, "quick": dict(GEN_Q, plugctx=1, nilstmt=1, nofunc=0), "thorough": dict(GEN_Q, plugctx=1, nilstmt=1)},
             {"harnesses": [H + "ZZH16aNesting"], "flags": VLQ_REDIRECT, "quick": {"budget": 3, "stmts": 1, "stmtmask": 96, "exprmask": 1024, "plugctx": 1, "nilstmt": 1, "atoms": 1, "maxlist": 1}, "thorough": {"budget": 4, "stmts": 1, "stmtmask": 96, "exprmask": 1024, "plugctx": 1, "nilstmt": 1, "atoms": 1, "maxlist": 1}},
+            # interceptors that call the exported parse functions of a construct directly (ParseFunctionStatement,
+            # ParseBlockStatement, ParseFunctionExpression + ParseRemainingExpression) instead of next(); and a parser driven
+            # statement by statement through ParseStatement without ParseProgram
+            {"harnesses": [H + "ZZH16aNesting"], "flags": VLQ_REDIRECT, "quick": dict(GEN_Q, stmts=1, direct=1), "thorough": dict(GEN_Q, direct=1)},
+            {"harnesses": [H + "ZZH16aNesting"], "flags": VLQ_REDIRECT, "quick": dict(GEN_Q, stmtdriven=1), "thorough": dict(GEN_Q, stmtdriven=1)},
             # inductive step over nesting depth: stack preset to depth 1..200, restored entry for entry
             {"harnesses": [H + "ZZH16cDepth"], "flags": VLQ_REDIRECT, "quick": dict(GEN_Q, budget=1), "thorough": GEN_Q},
             # a second parser living inside an interceptor call of the first
